@@ -26,7 +26,7 @@ From Verif Require Import Base.Prelude Base.Str Base.Float Base.GoVal
   Schema.Regex Schema.Units Schema.FloatUnits Schema.Syntax Schema.Ops Schema.Cbor
   Generated.Tables Proofs.CborNorm ATP.Msg ATP.Server Proofs.Server Proofs.ServerRoute.
 From Verif Require ATP.Client ATP.System Proofs.ATPClientInv Proofs.C05Vocab Proofs.C05System Proofs.C05Live
-  Proofs.C05ClientHalf Proofs.C05Examples.
+  Proofs.C05ClientHalf Proofs.C05Examples Proofs.C05Close Proofs.C05CloseEx.
 Import ListNotations.
 Open Scope Z_scope.
 Open Scope list_scope.
@@ -409,3 +409,54 @@ Example C05_refines_hypotheses_hold :
   (forall x, In x Verif.Proofs.C05Examples.ex_calls -> Verif.ATP.Client.cs_run x <> ""%string) /\
   Verif.Proofs.ATPClientInv.wf_session (Verif.ATP.System.sys_session Verif.Proofs.C05Examples.ex_calls false).
 Proof. exact Verif.Proofs.C05Examples.ex_hyps. Qed.
+
+(* (P7) REFINEMENT WITH CLOSE.  The same composition, the harness calls Close (`close = true`: the closer goroutine of
+   ATP/Client.v; its first step - the cancellation - is enabled once every Execute has written its work-start, i.e.
+   Close runs concurrently with the calls in flight or after they have returned; `close = false` gives C05_refines
+   again).  At the end of EVERY maximal execution: every Execute has returned `spec_callstep` of its own input - the
+   result, not merely "a result or an error": client-done is written behind every work-start and the server finishes
+   every accepted run before it closes workDone -, AND Close has returned nil (KDone CloseOk), the client's wait group is
+   0, the read loop has exited, every signal writer has exited: nothing the client started is left blocked.
+   New invariant (Proofs/C05Close.v CInv): FIFO order of the client -> server stream as a whole (pipe + server input):
+   no accepted work-start behind the first client-done; once the server has consumed client-done no accepted
+   work-start is left unread.  With it the server model's accounting (one terminal message per accepted work-start)
+   reaches every call, and `server_idle2` covers the deferred / gone states of the server's run() goroutine. *)
+Theorem C05_refines_with_close :
+  forall (g : Verif.ATP.System.scfg) (calls : list (Verif.ATP.Client.callspec Z)) (close : bool),
+    (forall x, In x calls -> Verif.ATP.Client.cs_run x <> ""%string) ->
+    Verif.Proofs.ATPClientInv.wf_session (Verif.ATP.System.sys_session calls close) ->
+    forall (sched : list Verif.ATP.System.slabel) (s : Verif.ATP.System.sstate),
+      Verif.ATP.System.sys_run g (Verif.ATP.System.sys_init calls close) sched = Some s ->
+      Verif.ATP.System.sys_final g s ->
+      (forall i x, nth_error calls i = Some x ->
+         Verif.ATP.System.sys_result s i = Some (Verif.ATP.System.spec_callstep g (Verif.ATP.Client.cs_input x))) /\
+      (close = true ->
+         Verif.ATP.Client.closer (Verif.ATP.System.cl s) = Verif.ATP.Client.KDone Verif.ATP.Client.CloseOk /\
+         Verif.ATP.Client.wg (Verif.ATP.System.cl s) = 0%nat /\
+         Verif.ATP.Client.loop_live (Verif.ATP.Client.cur (Verif.ATP.System.cl s)) = false /\
+         forall i c, nth_error (Verif.ATP.Client.callers (Verif.ATP.System.cl s)) i = Some c ->
+                     Verif.ATP.Client.c_spc c = Verif.ATP.Client.SNone \/ Verif.ATP.Client.c_spc c = Verif.ATP.Client.SExit).
+Proof. exact Verif.Proofs.C05Close.sys_refines_close. Qed.
+Print Assumptions C05_refines_with_close.
+
+(* ---- non-vacuity: the three overlapping calls of C05_refines_nonvacuous with Close called WHILE they are in flight
+   (client-done is written right behind the three work-starts); the schedule ends in a state in which no label is
+   enabled: the three results are the specified ones, Close has returned nil, and on the server side the closure
+   handler has returned and the run() goroutine is gone ---- *)
+Example C05_refines_with_close_nonvacuous :
+  (* exc_final := sys_run ex_g (sys_init ex_calls true) exc_sched  (Proofs/C05CloseEx.v) *)
+  exists s, Verif.Proofs.C05CloseEx.exc_final = Some s /\
+            Verif.ATP.System.sys_final Verif.Proofs.C05Examples.ex_g s /\
+            Verif.ATP.System.sys_result s 0%nat = Some (Verif.ATP.Client.ROk "success"%string 10) /\
+            Verif.ATP.System.sys_result s 1%nat = Some (Verif.ATP.Client.ROk "other"%string 30) /\
+            Verif.ATP.System.sys_result s 2%nat = Some (Verif.ATP.Client.RErr Verif.ATP.Client.ErrStep) /\
+            Verif.ATP.Client.closer (Verif.ATP.System.cl s) = Verif.ATP.Client.KDone Verif.ATP.Client.CloseOk /\
+            Verif.ATP.Client.wg (Verif.ATP.System.cl s) = 0%nat /\
+            Verif.ATP.Server.hp (Verif.ATP.System.sv s) = Verif.ATP.Server.HReturned /\
+            Verif.ATP.Server.rl (Verif.ATP.System.sv s) = Verif.ATP.Server.RGone.
+Proof. exact Verif.Proofs.C05CloseEx.exc_refines. Qed.
+
+Example C05_refines_with_close_hypotheses_hold :
+  (forall x, In x Verif.Proofs.C05Examples.ex_calls -> Verif.ATP.Client.cs_run x <> ""%string) /\
+  Verif.Proofs.ATPClientInv.wf_session (Verif.ATP.System.sys_session Verif.Proofs.C05Examples.ex_calls true).
+Proof. exact Verif.Proofs.C05CloseEx.exc_hyps. Qed.
